@@ -218,7 +218,14 @@ LexLess(s, t) == IF t = <<>> THEN FALSE
                  ELSE IF s = <<>> THEN TRUE
                  ELSE IF s[1] # t[1] THEN s[1] < t[1]
                  ELSE LexLess(Tail(s), Tail(t))
+\* kind of a column: "str", or a numeric one - "int" or, for array columns with a declared dtype, "uint8", "uint64", "float"
+\* (the dtype is storage only: the order of a numeric column is the order of its numbers, whatever the dtype)
 Less(kind, x, y) == IF kind = "str" THEN LexLess(Tail(x), Tail(y)) ELSE x[2] < y[2]
+\* the cell is a value of the column's declared type (otherwise the append is a conversion, which the property does not describe)
+Fits(kind, v) == CASE kind = "str" -> v[1] = 1
+                   [] kind = "uint8" -> v[1] = 0 /\ v[2] >= 0 /\ v[2] <= 255
+                   [] kind = "uint64" -> v[1] = 0 /\ v[2] >= 0
+                   [] OTHER -> v[1] = 0
 Leq(kind, x, y) == x = y \/ Less(kind, x, y)
 
 (***************************************************************************)
@@ -247,9 +254,11 @@ RCI_SortResults(t, name, rev) ==
   IN {[t EXCEPT !.rows = rr] : rr \in {x \in cand : SortedBy(x, RCI_ColIdx(t, name), t.kindof[name], rev)}}
 
 RCI_Specified(t, op) ==
-  CASE op.op = "append_list" -> t.cols # <<>> /\ Len(op.row) = Len(t.cols)
+  CASE op.op = "append_list" -> /\ t.cols # <<>> /\ Len(op.row) = Len(t.cols)
+                                /\ \A q \in 1..Len(t.cols) : Fits(t.kindof[t.cols[q]], op.row[q])
     [] op.op = "append_dict" -> /\ op.row # <<>>
                                 /\ (t.cols # <<>> => Range(DictNames(op.row)) = Range(t.cols))
+                                /\ \A n \in 1..Len(op.row) : op.row[n][1] \in DOMAIN t.kindof => Fits(t.kindof[op.row[n][1]], op.row[n][2])
     [] op.op = "sort" -> TRUE
     [] OTHER -> FALSE
 \* deterministic operations; sort is RCI_SortOK / RCI_SortResults (unknown column: the call fails, nothing changes)
@@ -283,8 +292,8 @@ RCI_Compact(t) == [c |-> t.cols, r |-> t.rows]
 (*                        RowCollector : MACHINE                           *)
 (* _columns : list of names ; one attribute per column holding a list      *)
 (* (mode "list") or an array (mode "arr": default float arrays, "typed":   *)
-(* arrays with the declared dtype int/str).  col[q] is the attribute named *)
-(* columns[q].                                                             *)
+(* arrays with the declared dtype int / uint8 / uint64 / float / str).     *)
+(* col[q] is the attribute named columns[q].                               *)
 (***************************************************************************)
 RCM_New(mode, cols, kindof) == [mode |-> mode, columns |-> cols, kindof |-> kindof, col |-> [q \in 1..Len(cols) |-> <<>>]]
 \* np.array(value, dtype=data.dtype): a <U1 array takes one character
